@@ -48,7 +48,8 @@ def replay(ctx, rep):
     case = rep['case']
     if case.get('scenario'):
         return common.scenario_replay(ctx, rep, {'asym': asym_scenarios, 'hierarchy': hierarchy_scenarios,
-                                                 'retype': retype_scenarios, 'generic': generic_retype_scenarios})
+                                                 'retype': retype_scenarios, 'generic': generic_retype_scenarios,
+                                                 'enum': enum_edit_scenarios})
     r = krun.Run(case, ['C03']).run()
     for s in r.steps:
         print(s['op'], '->', s['outcome'])
@@ -532,3 +533,131 @@ _run3 = run
 def run(ctx, out):   # noqa: F811
     _run3(ctx, out)
     generic_retype_scenarios(ctx, out)
+
+
+def enum_edit_scenarios(ctx, out):
+    """enumerations edited at run time (literal renamed in place, literals appended / extended / removed / cleared):
+    a name (or a literal object) conforms exactly when the enumeration CURRENTLY has a literal of that name (holds
+    that literal); and a name redefined in a subclass with another type: every write route checks against the
+    feature the name denotes on the object."""
+    from harness import common
+    common.use_repo()
+    from pyecore import ecore as E
+    rng = common.rng_for(ctx.seed, 'C03:enum')
+    n = 40 if ctx.tier != 'thorough' else 600
+    cnt = 0
+    NAMES = ['RED', 'GREEN', 'BLUE', 'AMBER', 'PINK', 'red']
+    for it in range(n):
+        En = E.EEnum('En', literals=['RED', 'GREEN'])
+        Other = E.EEnum('Other', literals=['RED', 'BIG'])
+        A = E.EClass('A')
+        A.eStructuralFeatures.append(E.EAttribute('one', En))
+        A.eStructuralFeatures.append(E.EAttribute('many', En, upper=-1, unique=rng.random() < 0.5))
+        used = A()
+        hist = []
+        failed = False
+        removed_literals = []
+        for step in range(rng.randrange(2, 7)):
+            k = rng.choice(['rename', 'append', 'extend', 'remove', 'clear', 'none'])
+            try:
+                cur = list(En.eLiterals)
+                if k == 'rename' and cur:
+                    lit = rng.choice(cur)
+                    new = rng.choice([x for x in NAMES if x not in [c.name for c in cur]] or ['ZZ'])
+                    lit.name = new
+                elif k == 'append':
+                    nm = rng.choice([x for x in NAMES if x not in [c.name for c in cur]] or ['YY'])
+                    En.eLiterals.append(E.EEnumLiteral(name=nm, value=len(cur) + 10))
+                elif k == 'extend':
+                    free = [x for x in NAMES if x not in [c.name for c in cur]][:2]
+                    En.eLiterals.extend([E.EEnumLiteral(name=x, value=20 + i) for i, x in enumerate(free)])
+                elif k == 'remove' and len(cur) > 1:
+                    lit = rng.choice(cur)
+                    En.eLiterals.remove(lit)
+                    removed_literals.append(lit)
+                elif k == 'clear' and rng.random() < 0.3:
+                    removed_literals += cur
+                    En.eLiterals.clear()
+            except Exception as e:  # noqa  (an edit that raises is not this property's subject; what the
+                hist.append(['edit', k, type(e).__name__])   # enumeration holds afterwards still decides conformance)
+            hist.append(['edit', k, [c.name for c in En.eLiterals]])
+            names_now = [c.name for c in En.eLiterals]
+            cands = [('name', x) for x in NAMES] + [('literal', c) for c in En.eLiterals] + \
+                [('literal-of-other-enum', Other.eLiterals[0])] + [('removed-literal', c) for c in removed_literals[-2:]]
+            rng.shuffle(cands)
+            for kind, v in cands[:8]:
+                many = rng.random() < 0.5
+                h = used if rng.random() < 0.6 else A()
+                path = rng.choice(MANY_PATHS if many else ONE_PATHS)
+                ok = (v in names_now) if kind == 'name' else (kind == 'literal')
+                raised = _store(E, h, 'many' if many else 'one', many, path, v, keep=False)
+                cnt += 1
+                shown = v if kind == 'name' else f'<{kind} {v.name}>'
+                hist.append(['store', 'used' if h is used else 'fresh', path, shown, raised])
+                case = {'scenario': 'enum', 'seed': ctx.seed, 'tier': ctx.tier, 'history': [list(x) for x in hist]}
+                sig = {'property': 'C03', 'clause': None, 'many': many, 'value': kind}
+                if ok and raised is not None:
+                    sig['clause'] = 'conforming-refused-after-enum-edit'
+                    out.fail(sig, f'{shown} is a literal of the enumeration {names_now} but the store gave {raised}', case)
+                    failed = True
+                if not ok and raised != 'BadValueError':
+                    sig['clause'] = 'nonconforming-accepted-after-enum-edit'
+                    out.fail(sig, f'{shown} is no literal of the enumeration {names_now} but the store gave {raised}', case)
+                    failed = True
+                if failed:
+                    break
+                if many:
+                    used.many.clear()
+            if failed:
+                break
+    # a name redefined in a subclass with another type
+    shadow = 0
+    for it in range(12 if ctx.tier != 'thorough' else 200):
+        Base, Sub = E.EClass('Base'), E.EClass('Sub')
+        Sub.eSuperTypes.append(Base)
+        many = rng.random() < 0.4
+        t1, t2 = rng.sample([(E.EInt, 5, 'int'), (E.EString, 'x', 'str'), (E.EBoolean, True, 'bool')], 2)
+        fb = E.EAttribute('code', t1[0], upper=-1 if many else 1)
+        fs = E.EAttribute('code', t2[0], upper=-1 if many else 1)
+        Base.eStructuralFeatures.append(fb)
+        Sub.eStructuralFeatures.append(fs)
+        for v, vn in ((t1[1], t1[2]), (t2[1], t2[2])):
+            for route in ('attr', 'eSet-name', 'eSet-own-feature', 'eSet-inherited-feature'):
+                o = Sub()
+                try:
+                    val = [v] if many else v
+                    if route == 'attr':
+                        setattr(o, 'code', val)
+                    elif route == 'eSet-name':
+                        o.eSet('code', val)
+                    elif route == 'eSet-own-feature':
+                        o.eSet(fs, val)
+                    else:
+                        o.eSet(fb, val)
+                    raised = None
+                except E.BadValueError:
+                    raised = 'BadValueError'
+                except Exception as e:  # noqa
+                    raised = type(e).__name__
+                shadow += 1
+                pyt = {'int': int, 'str': str, 'bool': bool}[t2[2]]
+                ok = isinstance(v, pyt)        # the name denotes Sub.code on an instance of Sub (a bool is an int)
+                got = list(o.code) if many else o.code
+                case = {'scenario': 'enum', 'seed': ctx.seed, 'tier': ctx.tier,
+                        'history': [['shadow', t1[2], t2[2], many, route, vn, raised]]}
+                sig = {'property': 'C03', 'clause': None, 'many': many, 'value': 'redefined-name'}
+                if (ok and raised is not None) or (not ok and raised != 'BadValueError'):
+                    sig['clause'] = 'redefined-name-checked-against-another-feature'
+                    out.fail(sig, f'Sub redefines code: {t1[2]} -> {t2[2]}; storing a {vn} through {route} gave {raised}; '
+                                  f'the object now reads {got!r}', case)
+                    break
+    out.coverage['enum_edit_stores_checked'] = cnt
+    out.coverage['redefined_name_stores_checked'] = shadow
+
+
+_run4 = run
+
+
+def run(ctx, out):   # noqa: F811
+    _run4(ctx, out)
+    enum_edit_scenarios(ctx, out)
